@@ -126,10 +126,18 @@ func nilStatements(root interface{}) string {
 func safeCompile(p *ast.Program, c Cfg) (code string, perr interface{}, stack string) {
 	defer func() {
 		if r := recover(); r != nil {
+			if iv, ok := r.(invariantViolation); ok {
+				panic(iv)
+			}
 			perr = r
 			stack = string(debug.Stack())
 		}
 	}()
+	if c.Pretty && c.Indent != 99 && c.Indent != -1 && c.Indent != 3 {
+		// "compiles without panicking" in every configuration; the reuse and
+		// source-map invariants (three compilations each) in a sample of them
+		return c.compiler().Compile(p).Code, nil, ""
+	}
 	return compile(p, c).Code, nil, ""
 }
 
